@@ -66,6 +66,12 @@ func (t *vfTicker) Chan() <-chan time.Time {
 
 func (t *vfTicker) Stop() { t.once.Do(func() { close(t.stopped) }) }
 
+func (t *vfTicker) curIter() int {
+	t.mu.Lock()
+	defer t.mu.Unlock()
+	return t.iter
+}
+
 func (t *vfTicker) isStopped() bool {
 	select {
 	case <-t.stopped:
@@ -408,6 +414,30 @@ func vfDeadlocked(id string, e *vfEnv) []string {
 	return calls
 }
 
+// vfCall runs one API call of the sequential client under the watchdog; a call that
+// provably can never return (vfDeadlocked) is a violation, the watchdog alone is not.
+func vfCall(c *kit.Case, e *vfEnv, wit func() map[string]any, fn func()) bool {
+	ch := vfAsync(fn)
+	if vfWaitChan(ch, 3*time.Second) {
+		return true
+	}
+	for start := time.Now(); time.Since(start) < vfWatchdog; {
+		if calls := vfDeadlocked(c.ID, e); len(calls) > 0 {
+			api := calls[0][:strings.Index(calls[0], "\n")]
+			w := wit()
+			w["parked"] = calls
+			c.Viol("C11/stuck/"+api+"/no-flusher-alive",
+				api+" can never return: parked with a stable stack, no background flusher goroutine exists, no callback is running", w)
+			return false
+		}
+		if vfWaitChan(ch, 2*time.Second) {
+			return true
+		}
+	}
+	c.Inconclusive("script: API call did not return")
+	return false
+}
+
 func vfGone(id string) bool {
 	return vfWaitUntil(func() bool { return vfLabelled(id) == 0 }, vfWatchdog)
 }
@@ -487,9 +517,10 @@ func vfRunScript(c *kit.Case, vc *kit.VClock) {
 	e := vfNewEnv(thr, poison)
 	var trace []string
 	desc := map[string]any{"family": c.Family, "threshold": thr, "ops": fmt.Sprint(ops), "final_wait": finalWait, "poisoned": fmt.Sprint(poison)}
-	viol := func(key, what string) {
-		c.Viol(key, what, map[string]any{"case": desc, "trace": trace, "executions": e.execLines()})
+	wit := func() map[string]any {
+		return map[string]any{"case": desc, "trace": trace, "executions": e.execLines()}
 	}
+	viol := func(key, what string) { c.Viol(key, what, wit()) }
 
 	lazy := r.Bool() // do not wait for a handed-over batch to finish before the next step
 	inflight := 0    // tasks of handed-over batches not yet known to be finished (lazy mode)
@@ -500,16 +531,37 @@ func vfRunScript(c *kit.Case, vc *kit.VClock) {
 	ticksSince := 0  // consecutive processed ticks without an Add in between
 	var pendAt int64 // number of added tasks when the first of those ticks was sent
 	var nTicks, nQuits, nSkips int64
+	// Every event the flusher processes (its start, a handed-over batch, a tick) is followed by
+	// exactly one evaluation of ticker.Chan(): a flusher that was given n events and has asked for
+	// its channel 1+n times is back in its select with nothing left to do. That is a state, so a
+	// batch that is still not executed then was dropped, however long we would wait.
+	exp := map[*vfTicker]int{}
+	var handoffTicker *vfTicker
+	given := func(t *vfTicker) {
+		if exp[t] == 0 {
+			exp[t] = 1
+		}
+		exp[t]++
+	}
 	settle := func(want int64, why string) bool {
 		if e.done.Load() == want {
 			return true
 		}
 		// only a batch handed to the flusher by a threshold-reaching Add completes asynchronously
-		if !vfWaitUntil(func() bool { return e.done.Load() >= want }, vfWatchdog) {
-			c.Inconclusive("script: " + why + ": executions did not complete")
-			return false
+		if vfWaitUntil(func() bool { return e.done.Load() >= want }, 3*time.Second) {
+			return true
 		}
-		return true
+		t := handoffTicker
+		if t != nil && vfWaitUntil(func() bool { return e.done.Load() >= want || t.curIter() >= exp[t] }, vfWatchdog) {
+			runtime.Gosched()
+			if got := e.done.Load(); got < want {
+				viol("C11/lost/periodical-scripted", fmt.Sprintf("%s: the flusher has processed every batch handed to it and is back in its loop, yet only %d of %d tasks were executed", why, got, want))
+				return false
+			}
+			return true
+		}
+		c.Inconclusive("script: " + why + ": executions did not complete")
+		return false
 	}
 	for _, o := range ops {
 		if c.Violated() {
@@ -518,12 +570,19 @@ func vfRunScript(c *kit.Case, vc *kit.VClock) {
 		trace = append(trace, o.String())
 		switch o.K {
 		case "add":
-			e.pe.Add(&vfTask{id: o.T})
+			if !vfCall(c, e, wit, func() { e.pe.Add(&vfTask{id: o.T}) }) {
+				return
+			}
 			added++
 			pend++
 			ticksSince = 0
 			if pend >= thr {
 				// Add returned, so the flusher has taken the batch over; it runs it on its own
+				vfWaitUntil(func() bool { return e.liveTicker() != nil }, vfWatchdog)
+				if t := e.liveTicker(); t != nil {
+					given(t)
+					handoffTicker = t
+				}
 				if lazy {
 					inflight += pend
 					nLazy++
@@ -533,7 +592,9 @@ func vfRunScript(c *kit.Case, vc *kit.VClock) {
 				pend = 0
 			}
 		case "flush":
-			e.pe.Flush()
+			if !vfCall(c, e, wit, func() { e.pe.Flush() }) {
+				return
+			}
 			pend = 0
 			// Flush is not a barrier for a batch the flusher is still running
 			if got := e.done.Load(); got < int64(added-inflight) {
@@ -544,7 +605,9 @@ func vfRunScript(c *kit.Case, vc *kit.VClock) {
 			}
 			inflight = 0
 		case "wait":
-			e.pe.Wait()
+			if !vfCall(c, e, wit, func() { e.pe.Wait() }) {
+				return
+			}
 			pend = 0
 			inflight = 0
 			// one client: its threshold-reaching Add returned only after the flusher registered the batch
@@ -601,6 +664,7 @@ func vfRunScript(c *kit.Case, vc *kit.VClock) {
 			}
 			nTicks++
 			ticksSince++
+			given(t)
 			got := e.done.Load()
 			switch {
 			case got == int64(added):
@@ -620,7 +684,9 @@ func vfRunScript(c *kit.Case, vc *kit.VClock) {
 		return
 	}
 	if finalWait {
-		e.pe.Wait()
+		if !vfCall(c, e, wit, func() { e.pe.Wait() }) {
+			return
+		}
 		trace = append(trace, "final-wait")
 		if got := e.done.Load(); got != int64(added) {
 			viol("C11/script/wait-left-tasks", fmt.Sprintf("final Wait returned with %d of %d added tasks executed", got, added))
@@ -971,7 +1037,19 @@ func TestVerifC11W(t *testing.T) {
 	vc := kit.InstallVClock()
 	defer kit.UninstallVClock()
 	lab := func(fn func(c *kit.Case, vc *kit.VClock)) func(c *kit.Case) {
-		return func(c *kit.Case) { kit.WithLabel(c.ID, func() { fn(c, vc) }) }
+		return func(c *kit.Case) {
+			runs := 1
+			if kit.GetEnv().Only != "" {
+				runs = 200 // --replay: repeat the case, schedules are not reproducible
+			}
+			for i := 0; i < runs; i++ {
+				c.R = kit.NewRand(c.Seed)
+				kit.WithLabel(c.ID, func() { fn(c, vc) })
+			}
+			if runs > 1 {
+				c.Obs("replay_runs", int64(runs))
+			}
+		}
 	}
 	kit.Run(t, "C11", "script", kit.N(12000, 200000), lab(vfRunScript))
 	kit.Run(t, "C11", "scripted-concurrent", kit.N(4000, 60000), lab(vfRunConcurrent))
